@@ -223,6 +223,17 @@ def evaluate(case) -> Outcome:
                     out.add(sig, f"[{phase}] {name}.find({s!r})\n got      {sorted(got)}\n expected {want}\n data {L}")
                 if got and (phase == "junk" or exp["nforms"] >= 2):
                     nt.append([s, phase])
+                # the same search given as a Sid object
+                if phase == "clean" and "?" not in s:
+                    from spil import Sid
+                    so = Sid(s)
+                    if so and str(so) == s:
+                        ok2, got2 = call(lambda: [str(x) for x in mk().find(so)])
+                        out.evaluations += 1
+                        if not ok2:
+                            out.add(f"C11/sid-object/{key}/raises/{exc_sig(got2)}", f"{name}.find(Sid({s!r})) raised {got2!r}")
+                        elif sorted(got2) != sorted(got):
+                            out.add(f"C11/sid-object/{key}/differs-from-string-search", f"{name}.find(Sid({s!r})) = {sorted(got2)}; find({s!r}) = {sorted(got)}")
 
     run_all("clean")
 
